@@ -854,6 +854,9 @@ def _run(ix, R):
     tuple_layout(ix, R)
     getters_setters(ix, R)
     collect(ix, R)
+    from rules.common import loop_closures
+    loop_closures(ix, R, '6.closure', ['taurex/data/', 'taurex/contributions/', 'taurex/model/'],
+                  'the fittable components (generated fitting-parameter getters / setters)')
 
 
 MUTANTS = [
